@@ -9,7 +9,7 @@
    created by the copy or afterwards cannot change the source.
    PARTIAL: the in-place assignment r2 <- r1 (copy_var_data, which writes field by field into the existing record) is
    compared with the implementation on generated record types through every copy channel, not proved. *)
-From PE2 Require Import Heap Lemmas_Copy Lemmas_DeepCopy.
+From PE2 Require Import Heap Eval Lemmas_Copy Lemmas_DeepCopy Lemmas_HeapInv.
 Local Open Scope N_scope.
 
 Theorem C07_copy_allocates_fresh_context : forall f tn c s p s',
@@ -50,6 +50,11 @@ Print Assumptions C07_source_independent_of_copy.
 Theorem C07_initial_state_ids_below_counter : forall stdin fs rnd, hb (PE2.Run.init_state stdin fs rnd).
 Proof. exact hb_init. Qed.
 Print Assumptions C07_initial_state_ids_below_counter.
+
+(* ... and is kept by everything the evaluator does: every state a program reaches satisfies the premise of the theorems above *)
+Theorem C07_ids_below_counter_is_invariant : forall ped repl lim fuel bl c s, hb s -> hb (snd (run_block ped repl lim fuel bl c s)).
+Proof. exact run_block_keeps_hb. Qed.
+Print Assumptions C07_ids_below_counter_is_invariant.
 
 (* non-vacuity: a record with a nested record and an array field, built by allocation, meets the premises and is copied *)
 Example C07_example_state_ok : hb ex_state.
